@@ -42,7 +42,7 @@ func pick(items []reuseItem) []reuseItem {
 			if t.Nil {
 				s += "nil,"
 			} else {
-				s += fmt.Sprintf("%d,", len(t.Shape))
+				s += fmt.Sprintf("%s%d,", t.Dt, len(t.Shape))
 			}
 		}
 		return s
@@ -104,16 +104,20 @@ func (r *reusePass) add(c *Case, text string) {
 		key += c.Inputs[0].Dt
 	}
 	h := sha1.Sum([]byte(text))
-	g := append(r.groups[key], reuseItem{c, text, string(h[:])})
-	if len(g) >= 2*reuseMaxPerGroup {
-		// keep the reuseMaxPerGroup smallest hashes: the retained set does not depend on the arrival order
-		sort.Slice(g, func(i, j int) bool { return g[i].h < g[j].h })
-		for i := reuseMaxPerGroup; i < len(g); i++ {
-			g[i] = reuseItem{}
+	// a second instance per (operator, attributes) sees the cases of EVERY element type in turn: nothing an instance learns
+	// about the type of one input holds for the next
+	for _, key := range []string{key, fmt.Sprintf("anytype|%s|%s|%d", c.Op, a, c.Nout)} {
+		g := append(r.groups[key], reuseItem{c, text, string(h[:])})
+		if len(g) >= 2*reuseMaxPerGroup {
+			// keep the reuseMaxPerGroup smallest hashes: the retained set does not depend on the arrival order
+			sort.Slice(g, func(i, j int) bool { return g[i].h < g[j].h })
+			for i := reuseMaxPerGroup; i < len(g); i++ {
+				g[i] = reuseItem{}
+			}
+			g = g[:reuseMaxPerGroup]
 		}
-		g = g[:reuseMaxPerGroup]
+		r.groups[key] = g
 	}
-	r.groups[key] = g
 }
 
 func (r *reusePass) run() []reuseVerdict {
